@@ -84,7 +84,9 @@ fn build_polygon(c: &Conc, pt: i32, ctor: &str, rings: &[(i32, Vec<AP>)]) -> Res
 }
 
 fn ring_event(tr: &mut Trace, c: &Conc, pt: i32, ctor: &str, rings: &[(i32, Vec<AP>)]) {
+    pending(&json!({"call": "polygon constructor", "pt": pt, "ctor": ctor, "inputs": rings_json(rings)}));
     let built = build_polygon(c, pt, ctor, rings);
+    pending_done();
     match built {
         Err(p) => tr.emit(json!({"ev": "rings", "pt": pt, "ctor": ctor, "inputs": rings_json(rings), "panic": p, "outputs": [], "rebuilt": []})),
         Ok(s) => {
@@ -98,6 +100,7 @@ fn ring_event(tr: &mut Trace, c: &Conc, pt: i32, ctor: &str, rings: &[(i32, Vec<
 }
 
 fn patch_event(tr: &mut Trace, c: &Conc, ctor: &str, patches: &[(i32, Vec<AP>)]) {
+    pending(&json!({"call": "multipatch constructor", "ctor": ctor, "inputs": rings_json(patches)}));
     let a = AShape { t: 31, parts: patches.iter().map(|r| r.1.clone()).collect(), kinds: patches.iter().map(|r| r.0).collect(), bbox: [0; 8] };
     let r = guarded(|| match ctor {
         "new" => {
@@ -124,6 +127,7 @@ fn patch_event(tr: &mut Trace, c: &Conc, ctor: &str, patches: &[(i32, Vec<AP>)])
         }
         _ => build(c, &a),
     });
+    pending_done();
     match r {
         Err(p) => tr.emit(json!({"ev": "patches", "ctor": ctor, "inputs": rings_json(patches), "panic": p, "outputs": []})),
         Ok(s) => {
@@ -154,13 +158,14 @@ fn grid_rings(n: usize) -> Vec<Vec<(i32, i32)>> {
 }
 
 fn lift(pt: i32, r: &[(i32, i32)], vary: u8) -> Vec<AP> {
-    // vary: 0 constant z/m; 1 the last vertex differs from the first in Z only; 2 in M only
+    // vary: 0 constant z/m; 1 the last vertex differs from the first in Z only; 2 in M only;
+    // 3: the first vertex has m = +0.0 and the last m = -0.0 (equal as numbers: such a ring is closed); 4: likewise in Z
     let n = r.len();
     r.iter()
         .enumerate()
         .map(|(i, (x, y))| {
-            let z = if pt == 15 { if vary == 1 && i == n - 1 { 2 } else { 1 } } else { 0 };
-            let m = if pt == 15 || pt == 25 { if vary == 2 && i == n - 1 { 3 } else { 1 } } else { 0 };
+            let z = if pt == 15 { if vary == 4 { if i == n - 1 { NEGZ } else if i == 0 { 0 } else { 1 } } else if vary == 1 && i == n - 1 { 2 } else { 1 } } else { 0 };
+            let m = if pt == 15 || pt == 25 { if vary == 3 { if i == n - 1 { NEGZ } else if i == 0 { 0 } else { 1 } } else if vary == 2 && i == n - 1 { 3 } else { 1 } } else { 0 };
             [*x - 1, *y - 1, z, m]
         })
         .collect()
@@ -183,7 +188,7 @@ pub fn run(a: &Args) {
         // the exponent of the exact coordinates covers both extremes (areas of 2^-80 and 2^80)
         let kfix = match ch { 0 => Some(-40), 1 => Some(40), 2 => Some(-27), 3 => Some(0), _ => None };
         // the chunk before the last one: neighbouring doubles (ends of a ring one or two ulps apart are NOT equal)
-        let c = if chunks >= 6 && ch + 2 == chunks { Conc::ulps(&mut r) } else { Conc::new_with(&mut r, exact && !(chunks >= 6 && ch + 2 == chunks), kfix, false) };
+        let c = if chunks >= 6 && ch + 2 == chunks { Conc::ulps(&mut r).with_negzero() } else { Conc::new_with(&mut r, exact && !(chunks >= 6 && ch + 2 == chunks), kfix, false).with_negzero() };
         let mut meta = c.meta();
         meta["prop"] = json!(prop);
         meta["seed"] = json!(seed);
@@ -210,6 +215,12 @@ pub fn run(a: &Args) {
                         ring_event(&mut traces[i], &concs[i], pt, "with_rings", &[(role, lift(pt, &ring, v))]);
                         k += 1;
                     }
+                    // ends that are equal as numbers and differ in their bits (+0.0 / -0.0): the ring is closed
+                    if n >= 2 && ring[0] == ring[n - 1] && pt != 5 && k % 5 == 0 {
+                        let v = if pt == 15 && k % 2 == 0 { 4 } else { 3 };
+                        ring_event(&mut traces[i], &concs[i], pt, if k % 3 == 0 { "new" } else { "with_rings" }, &[(role, lift(pt, &ring, v))]);
+                        k += 1;
+                    }
                 }
             }
         }
@@ -221,7 +232,7 @@ pub fn run(a: &Args) {
         k += 1;
         let pt = *r.pick(&[5, 25, 15]);
         let nr = 1 + r.below(4);
-        let rings: Vec<(i32, Vec<AP>)> = (0..nr).map(|_| (r.below(2) as i32, { let q = pool[r.below(pool.len())].clone(); let v = r.below(3) as u8; lift(pt, &q, v) })).collect();
+        let rings: Vec<(i32, Vec<AP>)> = (0..nr).map(|_| (r.below(2) as i32, { let q = pool[r.below(pool.len())].clone(); let v = r.below(5) as u8; lift(pt, &q, v) })).collect();
         ring_event(&mut traces[i], &concs[i], pt, "with_rings", &rings);
         // polygon! in struct form: two rings of four vertices, declared (outer, inner)
         {
@@ -233,7 +244,7 @@ pub fn run(a: &Args) {
             k += 1;
         }
         let np = 1 + r.below(4);
-        let patches: Vec<(i32, Vec<AP>)> = (0..np).map(|_| (r.below(6) as i32, { let q = pool[r.below(pool.len())].clone(); let v = r.below(3) as u8; lift(15, &q, v) })).collect();
+        let patches: Vec<(i32, Vec<AP>)> = (0..np).map(|_| (r.below(6) as i32, { let q = pool[r.below(pool.len())].clone(); let v = r.below(5) as u8; lift(15, &q, v) })).collect();
         patch_event(&mut traces[i], &concs[i], "with_parts", &patches);
         let single = vec![(r.below(6) as i32, { let q = pool[r.below(pool.len())].clone(); lift(15, &q, 0) })];
         patch_event(&mut traces[i], &concs[i], "new", &single);
